@@ -82,6 +82,20 @@ CHECKS = {
         'quick': {'shards': 16, 'timeout': 600},
         'thorough': {'shards': 16, 'timeout': 3600},
     },
+    'C12': {
+        'pkg': 'internal/multiplex', 'test': 'TestVerif_C12', 'level': 'fault_enumeration',
+        'technique': 'runtime fault injection: reset/EOF/session-Close injected at every routed record (boundary and inside header/payload/tag) of real session pairs in a synctest bubble; oracle over readers, recorded operations, connection states, stream counters and timers; forced check-then-act windows via hooks',
+        'level_text': 'For each small scenario (1..4 connections, 1..6 streams in open/transfer/close phases) a fault-free run fixes the number of routed records; the run is then repeated with a reset, an EOF or a Close by either side at each record '
+                      '(every boundary; quick: rotating subset of the in-record offset classes, thorough: all classes and kinds). After 10 virtual minutes the oracle demands: every reader got a prefix then an error, no recorded operation is still blocked, both sessions are closed, '
+                      'OpenStream is refused, every connection was closed by some end. Live-session invariants (stream count = open streams at quiescent points, no timer close with an open stream, singleplex closes with its stream) and two hook-forced windows (Close inside OpenStream, Close inside addConn) complete it.',
+        'level_note': 'Assumes ' + A_RACE + ' and ' + A_HARNESS + '; a fault is modelled as TCP does it (bytes before the cut are delivered, both ends then fail). Which connection carries which record is Cloak\'s random choice, so "each connection" is covered statistically, each record index exhaustively.',
+        'rule': 'case = (scenario, fault step = index of routed record, offset class in {boundary, tls header, frame header, payload, tag}, kind in {reset, eof, close by client, close by server}) plus invariant/timer/forced-window cases; '
+                'distinct = hash(scenario, fault); non-trivial = the fault struck a live session with streams in flight',
+        'exhaustive_scope': 'record boundaries of each small scenario (reset), all classes and kinds in the thorough tier',
+        'assumptions': [A_RACE, A_HARNESS],
+        'quick': {'shards': 16, 'timeout': 900},
+        'thorough': {'shards': 16, 'timeout': 5400},
+    },
 }
 
 NOT_APPLICABLE = {p: 'check not built yet in this round (the design in DESIGN.md section 3 applies; runtime monitoring can decide it)'
